@@ -53,7 +53,7 @@ ASSUMPTIONS = [
     "only the 'expr' family is implemented here; whole models are a second family to be registered with register_family()",
 ]
 BUDGET = {
-    "quick": {"examples": 2400, "shards": 16, "cap_s": 90, "shrink_calls": 150, "shrink_s": 40, "case_timeout_s": 30},
+    "quick": {"examples": 1600, "shards": 16, "cap_s": 150, "shrink_calls": 150, "shrink_s": 40, "case_timeout_s": 30},
     "thorough": {"examples": 30000, "shards": 16, "cap_s": 1500, "shrink_calls": 1000, "shrink_s": 240, "case_timeout_s": 90},
 }
 
@@ -384,7 +384,7 @@ def run_expr(desc) -> Result:
     return ok(nontrivial, labels, expr=str(e)[:160], pickle_bytes=len(blob))
 
 
-register_family("expr", strategy=_expr_strategy, run=run_expr, fixed=_expr_fixed)
+register_family("expr", strategy=_expr_strategy, run=run_expr, fixed=_expr_fixed, weight=5)
 
 # further families live in their own modules, which call `register_family` when imported
 for _module in ("vp.checks.c15_models",):
